@@ -11,8 +11,11 @@ decision logic of `xlang.DetectLang` + the switch of `format.File`:
   panicking branch.  It is equivalent to the decidable `Sound cfg` (`dispatch_total_iff`), so the kernel
   decides it for the table regenerated from the current source (`cfgCurrent_checked`,
   `current_verdict`).
-* On the pinned commit it is false: `dispatch_total_false_pinned` with the witness
-  `FormatCode("x.txt", "1")` (`dispatch_witness_pinned`), which the check replays on the real code.
+* `dispatch_total` — the full statement as a theorem about the table of the CURRENT source (true since
+  the `fix:` commit that made the default branch of `format.File` return an error).
+* On the pinned commit's table (`cfgPinned`, kept as documentation of the defect) it is false:
+  `dispatch_total_false_pinned` with the witness `FormatCode("x.txt", "1")` (`dispatch_witness_pinned`);
+  the check still replays that input on the real code (it must now return an error).
 * `dispatch_total_partial` — for the file names the tables know, no content reaches PANIC; and the
   language is then independent of the content (`detect_known_ext`).
 * `dispatch_panic_iff_pinned` + `detect_unknown_iff` — exactly which inputs panic.
@@ -119,6 +122,13 @@ theorem current_verdict :
   · intro h ht
     have := (dispatch_total_iff cfgCurrent cfgCurrent_checked.2.1).mp ht
     simp [h] at this
+
+/-- **`dispatch_total` — the full statement, for the current source.**  Since the repair of
+`format.File` (its default branch returns an error instead of `panic("unreachable")`) the table
+regenerated from the source is sound, so no file name and no content reaches a panic.  If a later change
+sends some language to a panicking branch again, the regenerated `cfgCurrentSound` becomes `false`,
+this theorem stops checking, and the check replays the model's witness on the real code. -/
+theorem dispatch_total : DispatchTotal cfgCurrent := current_verdict.1 (by decide)
 
 /-- for the file names the current tables know, no content reaches PANIC -/
 theorem dispatch_total_partial_current (name : List Char) (hk : (extLang cfgCurrent name).isSome = true)
